@@ -87,6 +87,20 @@ def base_scenarios():
         [tx('T2', 'block', ['ext'], [['r0', 20, pay]])])
     add('change-gap-distance-g', [tx('T1', 'block', ['ext'], [['r0', 50, pay]])],
         [tx('T2', 'block', [['T1', 0]], [['c1', 49, pay]])])
+    # -- larger chains (thorough only)
+    add('selfspend-3addr', [tx('T1', 'block', ['ext'], [['r0', 50, pay], ['r1', 20, pay], ['r2', 10, pay]])],
+        [tx('T2', 'mempool', [['T1', 0], ['T1', 1], ['T1', 2]], [['c0', 79, pay]])], quick=False)
+    add('two-spends-interleaved', [tx('T1', 'block', ['ext'], [['r0', 50, pay]]),
+                                   tx('T2', 'block', ['ext'], [['r1', 30, pay]])],
+        [tx('T3', 'mempool', [['T1', 0]], [['x', 20, 'p2pkh'], ['c0', 29, pay]]),
+         tx('T4', 'mempool', [['T2', 0]], [['x', 20, 'p2sh'], ['c1', 9, pay]])], quick=False)
+    add('claim-support-respend', [tx('T1', 'block', ['ext'], [['r0', 50, pay]])],
+        [tx('T2', 'block', [['T1', 0]], [['r1', 10, 'claim'], ['c0', 39, pay]])],
+        [tx('T3', 'mempool', [['T2', 1]], [['r2', 5, 'support'], ['c1', 33, pay]])], quick=False)
+    add('long-history-one-address',
+        [tx('T1', 'block', ['ext'], [['r0', 50, pay]]), tx('T2', 'block', ['ext'], [['r0', 30, pay]])],
+        [tx('T3', 'mempool', ['ext'], [['r0', 10, pay]]), tx('T4', 'mempool', [['T1', 0]], [['c0', 49, pay]])],
+        [['confirm', ['T3', 'T4']], tx('T5', 'block', [['T2', 0], ['T3', 0]], [['c1', 39, pay]])], quick=False)
     # -- a purchase paid to us: payment at position 0, purchase data (OP_RETURN) at position 1
     add('purchase-received-then-spent',
         [tx('T1', 'block', ['ext'], [['r0', 50, pay], ['x', 0, 'purchase_data']])],
@@ -283,7 +297,10 @@ def work(item, res):
     state = {'default': None, 'first': None, 'last': None, 'viol': {}}
 
     def replay_data(choices):
-        return {'spec': spec, 'mode': mode, 'stage': stage, 'order': order, 'opts': opts, 'choices': list(choices)}
+        c = list(choices)
+        while c and c[-1] == 0:      # trailing defaults are implied; the runner keeps the smallest replay per class
+            c.pop()
+        return {'spec': spec, 'mode': mode, 'stage': stage, 'order': order, 'opts': opts, 'choices': c}
 
     def run1(ch):
         return H.execute(spec, mode, stage, order, ch, opts)
@@ -306,7 +323,10 @@ def work(item, res):
         if cost or len(r['facts'] & {'two_updates_past_get_history_before_either_saved',
                                      'same_address_updates_overlap', 'subscribe_reply_with_history'}):
             res.distinct_add('nontrivial', (key, tuple(choices)))
-        problems, tallies = judge(r, H.GAPS)
+        if r.get('never_quiesces'):
+            problems, tallies = [({'kind': 'sync-never-quiesces'}, r['never_quiesces'])], []
+        else:
+            problems, tallies = judge(r, H.GAPS)
         for t in tallies:
             res.tally(t)
         for sig, what in problems:
@@ -314,11 +334,16 @@ def work(item, res):
             res.violation(sig, f"[{spec['name']} third={spec.get('third', 'none')} {mode} stage {stage} order "
                                f"{order} choices {compact(choices)}] {what}", replay_data(choices))
             state['viol'].setdefault(repr(sorted(sig.items(), key=str)), list(choices))
+        if r.get('never_quiesces'):
+            state['first'] = state['first'] or (list(choices), fingerprint(r))
+            state['last'] = (list(choices), fingerprint(r))
+            return
         end = (spec['name'], spec.get('third', 'none'), r['stage_reached'])
         res.distinct_add('endstate_keys', end)
         res.distinct_add('endstates', (end, r['canon']))
         if state['first'] is None:
             state['first'] = (list(choices), fingerprint(r))
+        if state['default'] is None:
             nrecv, nchg = len(r['obs']['receiving']), len(r['obs']['change'])
             state['default'] = (r['stage_reached'], nrecv, nchg)
         elif r['stage_reached'] == state['default'][0]:
@@ -352,6 +377,8 @@ def work(item, res):
 
 
 def fingerprint(r):
+    if r.get('never_quiesces'):
+        return repr(('never_quiesces', r['steps'], r['iterations']))
     o = r['obs']
     return repr((o['receiving'], o['change'], o['balance'], o['balance_all'], o['utxos'], o['unspent_all'],
                  o['detailed'], o['detailed_cached'], [e[:4] for e in o['exceptions']], o['stuck_tasks'],
@@ -384,18 +411,19 @@ def plan(ctx):
                 continue
             nst = len(sets[s['name']])
             for stage, syms in enumerate(sets[s['name']]):
-                # quick: canonical order and the restore of the complete chain only (family B below runs every
-                # order and every stage of the undecorated chains)
-                for order in ([tuple(syms)] if quick and kind != 'none' else itertools.permutations(syms)):
+                # quick (and the larger thorough-only chains): canonical order and the restore of the complete
+                # chain only for the decorated variants (family B below runs every order and every stage of the
+                # undecorated chains)
+                few = (quick or not s['quick']) and kind != 'none'
+                for order in ([tuple(syms)] if few else itertools.permutations(syms)):
                     items.append((spec, 'notify', stage, list(order), 0, {'early': False, 'defer': False}))
-                if not quick or kind == 'none' or stage == nst - 1:
+                if not few or stage == nst - 1:
                     items.append((spec, 'restore', stage, None, 0, {'early': False, 'defer': False}))
-    # family B: schedules.  Every chain without decoration (plus the p2pkh decoration, whose rows are saved
-    # when an input is ours), every stage x every order and the restore path, all schedules within the
-    # deviation bound
+    # family B: schedules.  Every chain without decoration, every stage x every order and the restore path,
+    # all schedules within the deviation bound
     b1 = 1
     for s in base:
-        for kind in (['none'] if quick else ['none', 'p2pkh']):
+        for kind in ['none']:
             spec = with_third(s, kind)
             for stage, syms in enumerate(sets[s['name']]):
                 for order in itertools.permutations(syms):
@@ -438,7 +466,7 @@ def run(ctx):
               'funds at gap distance g-1, g, g+1, chain reaction / both chains / re-spent third-party output, each '
               'growing in 1-3 stages. A: every chain x {none + 14 third-party script kinds} x every stage x every '
               'order of the stage\'s notification set + the restore path (whole chain present at subscribe time), '
-              'default schedule. B: every chain (x p2pkh decoration in thorough) x every stage x every order + '
+              'default schedule. B: every chain x every stage x every order + '
               'restore, every schedule with deviation cost <= 1 (early injection at any iteration boundary, '
               'non-oldest delivery, deferral of the oldest reply, early chain growth). C (thorough): deep chains, '
               'cost <= 2 with early injection costing 2. Stage s is explored from the default-schedule state of '
@@ -447,9 +475,14 @@ def run(ctx):
               'generated address came back with history.'),
         exhaustive=(n_states == n_keys),
         bounds={'deviation_bound_B': 1, 'deviation_bound_C': None if ctx.quick else 2, 'receiving_gap': 3,
-                'change_gap': 2, 'max_stages': 3, 'max_tx_per_chain': 3, 'third_party_kinds': len(H.THIRD_KINDS),
+                'change_gap': 2, 'max_stages': 3, 'max_tx_per_chain': 3 if ctx.quick else 5, 'third_party_kinds': len(H.THIRD_KINDS),
                 'items': fam, 'chains': len(base)},
         bound_completed=1 if ctx.quick else 2,
+        alphabet={'chains': [s['name'] for s in base], 'third_party_output_kinds': ['none'] + H.THIRD_KINDS,
+                  'modes': ['notify (stage by stage)', 'restore (whole chain at subscribe time)'],
+                  'deviations': ['early injection of a job/reply/notification/growth at an iteration boundary',
+                                 'non-oldest delivery', 'deferral of the oldest reply or notification',
+                                 'early chain growth']},
         assumptions=[
             'sqlite writer jobs are atomic at an iteration boundary (AIOSQLite serialises them behind one lock, '
             'so RUN/DONE splitting is unobservable)',
@@ -471,6 +504,8 @@ def replay(data):
     from vf.explore import Chooser
     ch = Chooser(data['choices'])
     r = H.execute(data['spec'], data['mode'], data['stage'], data['order'], ch, data.get('opts'), want_log=True)
+    if r.get('never_quiesces'):
+        return True, '\n'.join(r['log'] + ['VIOLATED sync-never-quiesces: ' + r['never_quiesces']])
     problems, tallies = judge(r, H.GAPS)
     an, tn = r['names']
     log = [f"scenario {data['spec']['name']} third={data['spec'].get('third', 'none')} mode={data['mode']} "
